@@ -507,9 +507,25 @@ class Builder:
                 raise Rejected("changed-type")      # e.g. sympy.Ne(a, a) collapses to BooleanFalse
             with _cpu_limit(MUTATED_EVAL_CPU_SECONDS):
                 again = eval(text, dict(EVAL_GLOBALS), {})
-            # An exception from == is not filtered here: it travels on as a failure of the code under test.
+            # A value that cannot even be compared with *itself* (XPowGate(dimension=0): ZeroDivisionError in
+            # its own equality values) is an argument a lenient constructor should have refused: discarded.
+            # (a shallow copy shares every attribute object: a class whose == only fails between *separately
+            # built* instances -- raw numpy arrays compared with == -- passes this and is caught below)
+            try:
+                if isinstance(v, (list, tuple)):
+                    twin = type(v)(copy.copy(x) if _is_cirq_obj(x) else x for x in v)
+                else:
+                    twin = copy.copy(v) if _is_cirq_obj(v) else v
+                if not (_eq(v, twin) and _eq(twin, v)):
+                    raise Rejected("not-self-equal")            # e.g. a NaN
+            except Rejected:
+                raise
+            except Exception as e:  # noqa: BLE001
+                raise Rejected("self-eq-raises:" + type(e).__name__) from None
+            # Two constructions from one text must be ==; an exception from *that* == is not filtered: it
+            # travels on as a failure of the code under test (equality that only works on the same instance).
             if not (_sut("mutated:eq", _eq, v, again) and _sut("mutated:eq", _eq, again, v)):
-                raise Rejected("not-self-equal")    # e.g. a NaN: no oracle can use a rebuilt reference
+                raise Rejected("not-self-equal")    # no oracle can use a rebuilt reference
         return v
 
     def b_corpus(self, pkg, name):
@@ -1087,6 +1103,18 @@ def op_build(req):
     return out
 
 
+def _same_document(a, b) -> bool:
+    try:
+        ta = cirq.to_json(a)
+    except Exception:  # noqa: BLE001
+        ta = None
+    try:
+        tb = cirq.to_json(b)
+    except Exception:  # noqa: BLE001
+        tb = None
+    return ta == tb
+
+
 def op_derive(req):
     """A value derived from a held (possibly cache-touched, imported, copied) value must equal -- and hash like,
     and be found by -- the same derivation of a freshly built, untouched equal value."""
@@ -1108,7 +1136,11 @@ def op_derive(req):
     HELD[req["new_slot"]] = d
     out = _describe(d)
     out["na"] = False
-    out["verdict"] = compare(d, ref, "derive:" + method)
+    # The fresh value stands for the held one only if both write the same document: a held value that came
+    # through a repr hop may be ==-equal to its recipe and still differ in something == ignores (WaitGate's
+    # qid_shape), and then the derived values differ for a reason that is not a cached state.
+    out["comparable"] = _same_document(v, fresh)
+    out["verdict"] = compare(d, ref, "derive:" + method) if out["comparable"] else None
     return out
 
 
